@@ -448,6 +448,12 @@ class C10:
             if not ok:
                 verdict = "inconsistent"
             replay["loaded"] = R.describe(got)
+        if verdict != "consistent" and not case.get("_second_run"):
+            # the gate forces the SAME interleaving every time: a snapshot that really mixes two instants does so again.  A verdict
+            # that comes from the client-side reconstruction of a deadline (PTTL reply + the client's clock, read one scheduling
+            # delay later — seen once on a cold, loaded machine) does not.  Run the case once more and judge that run.
+            rep.count("B.second-run-after-%s" % verdict)
+            return self.part_b_case(dict(case, _second_run=True))
         rep.nontrivial(("B", case["init"]["ty"], case["cls"], gate, verdict))
         if verdict != "consistent":
             z = case["init"]["ty"] == "Z" and gate == "rdb.zset.after_len"
